@@ -101,6 +101,8 @@ def ops_of(sc):
             out.append("add(s%d,%s)=h%d" % (o["s"], "own" if o["own"] else "plain", o["h"]))
         elif t == "addev":
             out.append("addev(s%d,%s,o%d)=h%d" % (o["s"], "own" if o["own"] else "plain", o["o"], o["h"]))
+        elif t == "remev":
+            out.append("remev(s%d,o%d)" % (o["s"], o["o"]))
         elif t in ("rem", "close"):
             out.append("%s(s%d)" % (t, o["s"]))
         else:
